@@ -106,7 +106,9 @@ func (mv *MessageView) SnapshotRequest(req *http.Request) error {
 	mv.traileroffset = int64(buf.Len())
 
 	ct := req.Header.Get("Content-Type")
-	if mv.skipBody && !mv.matchContentType(ct) || req.Body == nil {
+	// http.NoBody is left in place: replacing it would make net/http treat the
+	// request as having a body of unknown length.
+	if mv.skipBody && !mv.matchContentType(ct) || req.Body == nil || req.Body == http.NoBody {
 		mv.message = buf.Bytes()
 		return nil
 	}
